@@ -29,13 +29,13 @@ CONF = {
     "C18": dict(module="xsim.eng_c18", stub=True, kind="shards",
                 runs={"quick": 6000, "thorough": 150000},
                 wall={"quick": 170, "thorough": 1800}),
-    "C06": dict(module="xsim.eng_c06", stub=False, kind="shards",
+    "C06": dict(module="xsim.eng_c06", stub=False, kind="shards", shadow_hashseed=0,
                 runs={"quick": 4000, "thorough": 80000},
                 wall={"quick": 170, "thorough": 1800}),
-    "C07": dict(module="xsim.eng_c07", stub=True, kind="shards",
+    "C07": dict(module="xsim.eng_c07", stub=True, kind="shards", shadow_hashseed=0,
                 runs={"quick": 4000, "thorough": 80000},
                 wall={"quick": 150, "thorough": 1500}),
-    "C08": dict(module="xsim.eng_c08", stub=True, kind="shards",
+    "C08": dict(module="xsim.eng_c08", stub=True, kind="shards", shadow_hashseed=0,
                 runs={"quick": 4000, "thorough": 80000},
                 wall={"quick": 150, "thorough": 1500}),
     "C12": dict(module="xsim.eng_c12", stub=False, kind="hash",
@@ -167,7 +167,10 @@ def run_shard_check(prop, tier, seed, nshards=None, runs=None, wall=None,
                 "--nshards", "1", "--runs", str(nshadow), "--deadline", str(wall * 0.8)]
 
     def env_for(i):
-        return procs.worker_env(hashseed=0 if i < nshards else 1, with_stub=conf["stub"])
+        # shadow worker: other shard layout; other hash seed too where the engine's
+        # executions do not depend on it (dask graph construction does)
+        return procs.worker_env(hashseed=0 if i < nshards else conf.get("shadow_hashseed", 1),
+                                with_stub=conf["stub"])
 
     problems = procs.run_shards(argv_for, total, env_for, on_msg, wall_limit=wall * 0.8 + 150)
 
